@@ -112,6 +112,32 @@ Proof.
 Qed.
 Print Assumptions g_persistent_load_eq.
 
+(** * _RestrictedPickler.persistent_id *)
+(* the pickler writes exactly the class NoneType as a persistent id, and the id is the one the hand-written encoder
+   (Codec.enc PNoneType = [enc_str NONE_TYPE_PID; BINPERSID]) and persistent_load use *)
+Theorem g_persistent_id_eq : forall o : obj,
+  g_persistent_id o = if obj_is_nonetype o then Some NONE_TYPE_PID else None.
+Proof.
+  intros o. unfold g_persistent_id, NONE_TYPE_PID. destruct o; cbn [obj_is_nonetype obj_is_none negb];
+    cases; cbn [obj_is_nonetype obj_is_none negb] in *; try reflexivity; congruence.
+Qed.
+Print Assumptions g_persistent_id_eq.
+
+(* what the generated persistent_id writes, the generated persistent_load reads back: the two ends agree *)
+Theorem G_persistent_id_roundtrip : forall (o : obj) (pid : pystr),
+  g_persistent_id o = Some pid -> g_persistent_load (OStr pid) = o.
+Proof.
+  intros o pid H. rewrite g_persistent_id_eq in H. rewrite g_persistent_load_eq.
+  destruct o; cbn [obj_is_nonetype] in H; try discriminate H. inversion H; subst. reflexivity.
+Qed.
+Print Assumptions G_persistent_id_roundtrip.
+Theorem G_persistent_id_only_nonetype : forall o : obj, g_persistent_id o <> None <-> o = ONoneType.
+Proof.
+  intros o. rewrite g_persistent_id_eq. destruct o; cbn [obj_is_nonetype]; split; intro H; try reflexivity; try discriminate H;
+    try (exfalso; apply H; reflexivity). discriminate.
+Qed.
+Print Assumptions G_persistent_id_only_nonetype.
+
 (** * pickle_load *)
 (* pickle_load(content) for a bytes content is Bytes.load_content in the world of the unpickler it constructs *)
 Theorem g_pickle_load_eq : forall (e : env) (bs : list N) (safe : pyv),
